@@ -139,7 +139,7 @@ func allAlternatives(node interface{}) []alt {
 			a = append(a, alt{"empty", ""})
 		}
 	case float64:
-		a = append(a, alt{"retype:string", "seven"}, alt{"retype:map", map[string]interface{}{}}, alt{"retype:negative", -1}, alt{"retype:huge", 99999999999}, alt{"retype:zero", 0})
+		a = append(a, alt{"retype:string", "seven"}, alt{"retype:map", map[string]interface{}{}}, alt{"retype:negative", -1}, alt{"retype:huge", 99999999999}, alt{"retype:zero", 0}, alt{"value:one", 1}, alt{"value:65535", 65535}, alt{"value:65536", 65536})
 	case bool:
 		a = append(a, alt{"retype:string", "maybe"}, alt{"retype:flip", !x})
 	case nil:
@@ -508,6 +508,7 @@ func init() {
 }
 
 var c12ListFmts = []string{"txt", "json", "csv", "md", "dot"}
+var c12Focus = "w0" // every generated world has a workload w0 or a pod bp0; absent elsewhere (the warning path)
 var c12DiffFmts = []string{"txt", "csv", "md", "dot"}
 
 func c12Steps(dir string) []job.Step { return c12StepsRot(dir, 0) }
@@ -520,6 +521,7 @@ func c12StepsRot(dir string, k int) []job.Step {
 		{Kind: job.List, Dir: dir, Fmt: c12ListFmts[(k+2)%5], Exposure: true, Loud: true},
 		{Kind: job.Diff, Dir1: dir, Dir2: "orig", Fmt: c12DiffFmts[k%4], Loud: true},
 		{Kind: job.List, Dir: dir, Fmt: c12ListFmts[(k+1)%5], Stop: true, Loud: true},
+		{Kind: job.List, Dir: dir, Fmt: c12ListFmts[(k+3)%5], Focus: c12Focus, Loud: true},
 	}
 	if c12Full {
 		st = append(st, job.Step{Kind: job.Diff, Dir1: "orig", Dir2: dir, Fmt: c12DiffFmts[(k+1)%4], Loud: true})
@@ -662,7 +664,7 @@ func runC12(tier string, seed uint64) int {
 	infras := make([]string, len(batches))
 	var execs, cmds int64
 	cnt := make([][2]int, len(batches))
-	nodeTimeout = 120e9
+	nodeTimeout = 45e9
 	parallel(len(batches), workers, func(bi int) {
 		b := batches[bi]
 		ms := muts[b.lo:b.hi]
